@@ -25,6 +25,9 @@
 (*                (501 5.1.1 User does not exist).                         *)
 (*   "BlobLeak"   go-imap-sql's Delivery.Abort never learns the keys of    *)
 (*                the blobs Body wrote: they stay in the message store.    *)
+(*   "EarlyNotify" go-imap-sql announces every insert of Body to the IMAP  *)
+(*                sessions that have the mailbox selected at once, before  *)
+(*                Commit - and also when the delivery is then aborted.     *)
 (***************************************************************************)
 EXTENDS LocalStoreObs, TLC, SequencesExt, Json
 
@@ -38,13 +41,14 @@ CONSTANTS Addrs,      \* abstract addresses used in envelopes
           JBoxes,     \* "none" | "special" (account a owns Spam with \Junk) | "plain" (a, b own a plain junk_mailbox)
           JunkNames,  \* values of junk_mailbox
           QuarSet,    \* subset of BOOLEAN: quarantine flag of a message
+          WatchSet,   \* subset of BOOLEAN: an IMAP session has INBOX of account a selected
           EnvActs,    \* subset of {"Delete", "Login"}: environment steps allowed (each once)
           DelAccts,   \* accounts the environment may remove
           Faults,     \* BOOLEAN: blob-store write faults explored
           Devs,       \* enabled deviations
           Gen         \* TRUE: keep the behaviour history and print complete behaviours
 
-VARIABLES cfg,     \* [norm, dmap, nf, jbox, junkName, msgs]  fixed per behaviour
+VARIABLES cfg,     \* [norm, dmap, nf, jbox, junkName, watch, msgs]  fixed per behaviour
           phase,   \* "idle" "open" "body" "fail" "end"
           mi,      \* number of the current / last message
           idx,     \* next position in the recipient list
@@ -54,17 +58,19 @@ VARIABLES cfg,     \* [norm, dmap, nf, jbox, junkName, msgs]  fixed per behaviou
           exists,  \* accounts existing
           blobs,   \* the open delivery has written blobs
           leak,    \* blobs of an aborted delivery are still in the message store
+          told,    \* messages announced (EXISTS) to the session watching INBOX of account a
+          ann,     \* inserts of the open transaction into that mailbox not announced yet
           envDone, \* environment steps taken
           used,    \* deviations this behaviour exercised
           obs,     \* observation state (LocalStoreObs)
           hist
 
-vars == <<cfg, phase, mi, idx, ks, store, pend, exists, blobs, leak, envDone, used, obs, hist>>
-View == <<cfg, phase, mi, idx, ks, store, pend, exists, blobs, leak, envDone, used, obs>>
+vars == <<cfg, phase, mi, idx, ks, store, pend, exists, blobs, leak, told, ann, envDone, used, obs, hist>>
+View == <<cfg, phase, mi, idx, ks, store, pend, exists, blobs, leak, told, ann, envDone, used, obs>>
 
 Lists == UNION {[1..k -> Addrs] : k \in 1..MaxList}
 MsgRecs == [list : Lists, quar : QuarSet]
-Cfgs == [norm : Norms, dmap : DMaps, nf : NFilts, jbox : JBoxes, junkName : JunkNames,
+Cfgs == [norm : Norms, dmap : DMaps, nf : NFilts, jbox : JBoxes, junkName : JunkNames, watch : WatchSet,
          msgs : UNION {[1..k -> MsgRecs] : k \in 1..MaxMsgs}]
 
 H(e) == IF Gen THEN Append(hist, e) ELSE hist
@@ -76,7 +82,7 @@ InitWith(c) ==
   /\ cfg = c
   /\ phase = "idle" /\ mi = 0 /\ idx = 0 /\ ks = <<>>
   /\ store = {} /\ pend = {} /\ exists = StartAccts
-  /\ blobs = FALSE /\ leak = FALSE /\ envDone = {} /\ used = {}
+  /\ blobs = FALSE /\ leak = FALSE /\ told = 0 /\ ann = 0 /\ envDone = {} /\ used = {}
   /\ obs = ObsInit
   /\ hist = <<>>
 
@@ -86,7 +92,7 @@ Init == \E c \in Cfgs : InitWith(c)
 RandSeq(n, S) == [i \in 1..n |-> RandomElement(S)]
 RandCfg(k) ==
   [norm |-> RandomElement(Norms), dmap |-> RandomElement(DMaps), nf |-> RandomElement(NFilts),
-   jbox |-> RandomElement(JBoxes), junkName |-> RandomElement(JunkNames),
+   jbox |-> RandomElement(JBoxes), junkName |-> RandomElement(JunkNames), watch |-> RandomElement(WatchSet),
    msgs |-> [j \in 1..RandomElement(1..MaxMsgs) |->
                [list |-> RandSeq(RandomElement(1..MaxList), Addrs), quar |-> RandomElement(QuarSet)]]]
 SimInit == \E k \in 1..3000 : InitWith(RandCfg(k))
@@ -98,9 +104,10 @@ Start ==
   /\ phase = "idle" /\ mi < Len(cfg.msgs)
   /\ mi' = mi + 1 /\ idx' = 1 /\ ks' = <<>> /\ pend' = {} /\ blobs' = FALSE
   /\ phase' = "open"
-  /\ obs' = ObsStart(obs, MsgId(mi + 1), cfg.msgs[mi + 1].quar, store)
+  /\ obs' = ObsTold(ObsStart(obs, MsgId(mi + 1), cfg.msgs[mi + 1].quar, store), told, store)
   /\ hist' = H([a |-> "Start", msg |-> mi + 1, quar |-> cfg.msgs[mi + 1].quar])
-  /\ UNCHANGED <<cfg, store, exists, leak, envDone, used>>
+  /\ ann' = 0
+  /\ UNCHANGED <<cfg, store, exists, leak, told, envDone, used>>
 
 (***************************************************************************)
 (* AddRcpt: resolve the address, refuse what has no account, skip what was *)
@@ -124,10 +131,10 @@ AddRcpt ==
      IN /\ ks' = IF res = "ok" /\ ~HasKey(r, cv) THEN Append(ks, [acct |-> r, cv |-> cv, ad |-> ad]) ELSE ks
         /\ used' = used \cup (IF res = "ok" /\ cv THEN {"CaseKey"} ELSE {})
                         \cup (IF r = "err" /\ "MapErrPerm" \in Devs THEN {"MapErrPerm"} ELSE {})
-        /\ obs' = ObsAddRcpt(obs, cfg, ad, res, store)
+        /\ obs' = ObsTold(ObsAddRcpt(obs, cfg, ad, res, store), told, store)
         /\ hist' = H([a |-> "AddRcpt", ad |-> ad])
   /\ idx' = idx + 1
-  /\ UNCHANGED <<cfg, phase, mi, store, pend, exists, blobs, leak, envDone>>
+  /\ UNCHANGED <<cfg, phase, mi, store, pend, exists, blobs, leak, told, ann, envDone>>
 
 (***************************************************************************)
 (* Environment: an account is removed / created between two calls          *)
@@ -138,18 +145,18 @@ Delete(acct) ==
   /\ exists' = exists \ {acct}
   /\ store' = {r \in store : r.acct # acct}
   /\ envDone' = envDone \cup {"Delete"}
-  /\ obs' = ObsDelete(obs, acct, store')
+  /\ obs' = ObsTold(ObsDelete(obs, acct, store'), told, store')
   /\ hist' = H([a |-> "Delete", acct |-> acct])
-  /\ UNCHANGED <<cfg, phase, mi, idx, ks, pend, blobs, leak, used>>
+  /\ UNCHANGED <<cfg, phase, mi, idx, ks, pend, blobs, leak, told, ann, used>>
 
 Login ==
   /\ "Login" \in EnvActs \ envDone /\ phase \in {"idle", "open"}
   /\ "u" \notin exists
   /\ exists' = exists \cup {"u"}
   /\ envDone' = envDone \cup {"Login"}
-  /\ obs' = ObsLogin(obs, "u", "ok", store)
+  /\ obs' = ObsTold(ObsLogin(obs, "u", "ok", store), told, store)
   /\ hist' = H([a |-> "Login", acct |-> "u"])
-  /\ UNCHANGED <<cfg, phase, mi, idx, ks, store, pend, blobs, leak, used>>
+  /\ UNCHANGED <<cfg, phase, mi, idx, ks, store, pend, blobs, leak, told, ann, used>>
 
 (***************************************************************************)
 (* Body: filters (not for quarantined messages), target mailboxes, one     *)
@@ -175,6 +182,11 @@ Calls(quar, outs) ==
   IF quar THEN {}
   ELSE {[f |-> i, acct |-> ks[j].acct, ad |-> ks[j].ad] : i \in 1..Len(outs), j \in 1..Len(ks)}
 
+\* inserts into INBOX of account a among the first n recipients (each is announced to the watching session)
+InboxAUpTo(quar, outs, n) ==
+  IF ~cfg.watch THEN 0
+  ELSE Cardinality({i \in 1..n : ks[i].acct = "a" /\ BoxOf(quar, outs, "a") = "INBOX"})
+
 Dead == {i \in 1..Len(ks) : ks[i].acct \notin exists}
 MinOf(S) == CHOOSE x \in S : \A y \in S : x <= y
 \* position of the recipient whose insert fails (0 = none)
@@ -190,16 +202,24 @@ Body(outs, fault) ==
         /\ pend' = IF fa = 0 THEN Added(quar, outs) ELSE {}
         \* a quarantined message resolves the junk mailboxes of all recipients first
         /\ blobs' = IF fa = 0 THEN TRUE ELSE (fa > 1 /\ ~(quar /\ Dead # {}))
-        /\ obs' = ObsBody(obs, cfg, outs, Calls(quar, outs), fault, res, store)
+        \* the inserts made before the failing one (all, when none fails)
+        /\ LET done == IF quar /\ Dead # {} THEN 0 ELSE IF fa = 0 THEN Len(ks) ELSE fa - 1
+               k    == InboxAUpTo(quar, outs, done)
+           IN IF "EarlyNotify" \in Devs
+              THEN /\ told' = told + k /\ ann' = 0
+                   /\ used' = used \cup (IF k > 0 THEN {"EarlyNotify"} ELSE {})
+              ELSE /\ told' = told /\ ann' = (IF fa = 0 THEN k ELSE 0) /\ used' = used
+        /\ obs' = ObsTold(ObsBody(obs, cfg, outs, Calls(quar, outs), fault, res, store), told', store)
         /\ hist' = H([a |-> "Body", outs |-> outs, fault |-> fault])
-  /\ UNCHANGED <<cfg, mi, idx, ks, store, exists, leak, envDone, used>>
+  /\ UNCHANGED <<cfg, mi, idx, ks, store, exists, leak, envDone>>
 
 Commit ==
   /\ phase = "body"
   /\ store' = store \cup pend
   /\ pend' = {} /\ ks' = <<>> /\ blobs' = FALSE
   /\ phase' = "idle"
-  /\ obs' = ObsCommit(obs, "ok", store')
+  /\ told' = told + ann /\ ann' = 0
+  /\ obs' = ObsTold(ObsCommit(obs, "ok", store'), told', store')
   /\ hist' = H([a |-> "Commit"])
   /\ UNCHANGED <<cfg, mi, idx, exists, leak, envDone, used>>
 
@@ -209,9 +229,10 @@ Abort ==
   /\ leak' = (leak \/ (blobs /\ "BlobLeak" \in Devs))
   /\ used' = used \cup (IF blobs /\ "BlobLeak" \in Devs THEN {"BlobLeak"} ELSE {})
   /\ phase' = "idle"
-  /\ obs' = ObsAbort(obs, store)
+  /\ ann' = 0
+  /\ obs' = ObsTold(ObsAbort(obs, store), told, store)
   /\ hist' = H([a |-> "Abort"])
-  /\ UNCHANGED <<cfg, mi, idx, store, exists, envDone>>
+  /\ UNCHANGED <<cfg, mi, idx, store, exists, told, envDone>>
 
 End ==
   /\ phase = "idle" /\ mi = Len(cfg.msgs)
@@ -219,7 +240,7 @@ End ==
   /\ obs' = ObsEnd(obs, IF leak THEN 1 ELSE 0)
   /\ hist' = H([a |-> "End"])
   /\ IF Gen THEN PrintT(<<"BEH", ToJson([cfg |-> cfg, hist |-> hist'])>>) ELSE TRUE
-  /\ UNCHANGED <<cfg, mi, idx, ks, store, pend, exists, blobs, leak, envDone, used>>
+  /\ UNCHANGED <<cfg, mi, idx, ks, store, pend, exists, blobs, leak, told, ann, envDone, used>>
 
 FaultSet == IF Faults THEN 0..Len(ks) ELSE {0}
 
